@@ -383,15 +383,28 @@ class Fn:
                         atoms.add(("field", nm))
                     elif p[0] == 1 and n == 0 and pr in caps:
                         atoms.add(("capture", caps[pr]))
+            # field-sensitive step through a local built by exactly one aggregate
+            if p[1] and p[1][0].startswith("f"):
+                ds = defs.get(p[0], [])
+                if len(ds) == 1 and ds[0][1] != "t" and not ds[0][2]["lhs"][1]:
+                    rv = ds[0][2]["rv"]
+                    if rv["k"] == "agg" and rv.get("agg") in ("tuple", "adt", "closure"):
+                        try:
+                            i = int(p[1][0][1:].split(":")[0])
+                        except ValueError:
+                            i = None
+                        if i is not None and i < len(rv["ops"]):
+                            push_op(rv["ops"][i])
+                            return
                 elif pr.startswith("i"):
                     pass
             work.append(p[0])
 
+        defs = self.defs()
         if isinstance(start, int):
             work.append(start)
         else:
             push_op(start)
-        defs = self.defs()
         mrt = None
         while work and len(seen) < maxn:
             l = work.pop()
@@ -641,4 +654,21 @@ def rv_locals(rv):
             p = op_place(o)
             if p is not None:
                 out.append(p[0])
+    return out
+
+
+def path_conditions(fn, bb):
+    """For block bb: list of (switch_block, value) for each dominating switch all of whose
+    paths to bb leave through the same edge.  value is the matched constant (str) or 'otherwise'."""
+    out = []
+    for (sb, st) in fn.switches():
+        if sb == bb or not fn.dominates(sb, bb):
+            continue
+        edges = []
+        seen_t = set()
+        for v, tb in st["t"] + [["otherwise", st["o"]]]:
+            if bb in fn.reach_from([tb], avoid={sb}):
+                edges.append(v)
+        if len(edges) == 1:
+            out.append((sb, edges[0]))
     return out
